@@ -260,6 +260,29 @@ def rule_C08(env):
                 if fld not in firsts[0][1]:
                     res.add("R08.a", "generate_internal/%s-not-reset-before-first-opcode" % fld,
                             "Generator.%s is per-pickle state read while opcodes are emitted, but generate_internal does not rewrite it before the first opcode" % fld, loc)
+    # R08.f: mutators are stateless.  They are reached through `&self` behind `Box<dyn Mutator>`, which no reset can touch: a
+    # field with interior mutability is state that survives from one pickle to the next.
+    try:
+        table = env.memo("muttable", lambda: __import__("mutsum").MutatorTable(prog))
+        impl_types = sorted({i["self_ty"] for i in table.impls})
+    except Exception as e:
+        impl_types = []
+        res.add("R08.f", "mutators/anchor", "Mutator impl table: %s" % e)
+    INTERIOR = re.compile(r"\b(Cell|RefCell|UnsafeCell|OnceCell|OnceLock|LazyLock|Mutex|RwLock|Atomic\w*)\b")
+    for ty in impl_types:
+        res.count("R08.f")
+        try:
+            adt = prog.adt_of(ty)
+        except Unanalysable:
+            continue
+        for v in prog.adts[adt]["variants"]:
+            for fd in v["fields"]:
+                m = INTERIOR.search(str(fd["ty"]))
+                if m:
+                    res.add("R08.f", "mutator-state/%s/%s" % (ty.split("::")[-1], fd["name"]),
+                            "%s.%s: %s has interior mutability: a mutator is called through &self and outlives reset(), so what it records "
+                            "during one pickle changes the next" % (ty, fd["name"], fd["ty"]), "src/mutators")
+    res.floor("R08.f", 7, "Mutator implementors")
     # R08.b: reset() clears every scratch field (field roles are fixed in absgen.Ctx.make_generator; unknown fields fail closed)
     k_reset = prog.find("generator::Generator::reset")
     mf = H.models_factory(prog, ctx, None)
@@ -436,7 +459,7 @@ def rule_C11(env):
                 d = hi.args[1]
                 rel = d.attrs.get("rel") or []
                 ra = d.attrs.get("rel_args") or []
-                if ("lt_arg", 0) in rel and ra and is_sym(ra[0]) and ra[0].op == "sat_sub" and ra[0].args[0] is mx and ra[0].args[1] is mn and d.lo >= 0:
+                if (("lt_arg", 0) in rel or ("le_arg", 0) in rel) and ra and is_sym(ra[0]) and ra[0].op == "sat_sub" and ra[0].args[0] is mx and ra[0].args[1] is mn and d.lo >= 0:
                     okshape = True
             elif is_sym(hi) and hi.op == "draw":
                 rel = hi.attrs.get("rel") or []
@@ -468,7 +491,8 @@ def rule_C11(env):
                 parts, _ = E.final_parts(lf.writes)
                 dec = E.decode_stream(parts, spec) if parts else []
                 cnt = len(dec)
-                broken = [p for row, info, pr in dec for p in pr if row is None or "missing" in p or "truncated" in p or "unterminated" in p]
+                broken = [p for row, info, pr in dec for p in pr if row is None or "missing" in p or "truncated" in p or "unterminated" in p
+                          or "newline" in p or "not escaped" in p]
                 if broken and cnt == 1:
                     res.add("P3", "emit_and_process/%s/incomplete" % op,
                             "the bytes emitted for %s are not one complete opcode (%s): the following bytes are read as its argument, so "
